@@ -74,6 +74,26 @@ CLAIMED = {
         note="Single-threaded histories; the failing-set fault is a dotted path running through a non-mapping "
              "placed first/middle/last in the call; asynchronous exceptions are out of the statement.",
         ref="DESIGN.md §4 C17"),
+    "C52": dict(
+        technique="deterministic simulation (E1) with simulated clock and tape-driven cache eviction; profiler "
+                  "record compared with the recorded execution history, cached runs compared with the "
+                  "reference evaluator",
+        text="Profiler rows must equal, one per key that finished, the (key, pretask time, posttask time) "
+             "history recorded by the harness under every simulated schedule, across several calls in one "
+             "context and with failing tasks; with a Cache active, values over consecutive calls sharing keys "
+             "must equal the no-cache values under reuse and arbitrary eviction.",
+        note="cachey is absent and stubbed (eviction decided by the tape); default_timer is the simulated clock; "
+             "ResourceProfiler/ProgressBar background threads are not simulated.",
+        ref="DESIGN.md §4 C52"),
+    "C53": dict(
+        technique="deterministic simulation (E2 baton-passed real threads, simulated lock) of contention "
+                  "histories against a lock-family model",
+        text="2-4 simulated threads run tape-generated critical sections over pickled copies of up to 3 lock "
+             "families; the model (one holder per family) decides every non-blocking/timed result, locked() "
+             "answer and mutual exclusion; deadlock of the simulated threads is a violation.",
+        note="threading.Lock inside SerializableLock is replaced by SimLock (wraps a real lock); creation races "
+             "are excluded as documented; pre-emption only at lock operations and explicit yield points.",
+        ref="DESIGN.md §4 C53"),
 }
 
 NA = {
